@@ -57,12 +57,14 @@ func (f *Filler) String() string {
 }
 
 var (
-	extremeI64 = []int64{0, 1, -1, math.MaxInt64, math.MinInt64, math.MaxInt32, math.MinInt32, 1<<53 + 1, -(1<<53 + 1), math.MaxInt64 - 1}
-	extremeU64 = []uint64{0, 1, math.MaxUint64, math.MaxInt64, math.MaxInt64 + 1, 1<<53 + 1, math.MaxUint32, math.MaxUint64 - 1}
+	extremeI64 = []int64{0, 1, -1, math.MaxInt64, math.MinInt64, math.MaxInt32, math.MinInt32, 1<<53 + 1, -(1<<53 + 1), math.MaxInt64 - 1, 1 << 32, -(1 << 32), 0x7fffffff00000000}
+	extremeU64 = []uint64{0, 1, math.MaxUint64, math.MaxInt64, math.MaxInt64 + 1, 1<<53 + 1, math.MaxUint32, math.MaxUint64 - 1, 1 << 32, 0xffffffff00000000, 1 << 63, 1 << 56}
 	extremeI32 = []int32{0, 1, -1, math.MaxInt32, math.MinInt32}
-	extremeU32 = []uint32{0, 1, math.MaxUint32, math.MaxInt32, math.MaxInt32 + 1}
+	extremeU32 = []uint32{0, 1, math.MaxUint32, math.MaxInt32, math.MaxInt32 + 1, 1 << 16, 0xffff0000, 1 << 24}
 	extremeF64 = []float64{0, math.Copysign(0, -1), 1, -1, math.MaxFloat64, -math.MaxFloat64, math.SmallestNonzeroFloat64, 5e-324 * 3, math.Inf(1), math.Inf(-1),
-		0.1, 1e21, 1e-7, 123456789.123456789, float64(1<<53 + 2), math.NaN()}
+		0.1, 1e21, 1e-7, 123456789.123456789, float64(1<<53 + 2), math.NaN(),
+		// zero in one 32-bit word of the bit pattern: high word only (2, -2, 2^-1022), low word only (denormals)
+		2, -2, 0x1p-1022, math.Float64frombits(0x00000000ffffffff), math.Float64frombits(1 << 32)}
 )
 
 // EnumValues returns the defined values of an enum type (named int32 with a String method), found by
@@ -141,16 +143,46 @@ func (f *Filler) Scalar(t reflect.Type) reflect.Value {
 	case reflect.Bool:
 		v.SetBool(f.Rng.Intn(2) == 0)
 	case reflect.Array:
-		if !(ext && f.Rng.Intn(2) == 0) { // else: the zero id
-			u := f.uniq()
-			for i := 0; i < v.Len(); i++ {
-				v.Index(i).SetUint(uint64(byte(u>>(8*(uint(i)%8))) ^ byte(i*37+1)))
-			}
-		}
+		f.fillID(v, ext)
 	default:
 		panic("reflectpd: scalar kind " + t.String())
 	}
 	return v
+}
+
+// fillID fills a byte-array id (trace, span, profile id). Ids are "emptiness-gated": encoders skip an id
+// they consider empty, and emptiness tests are the kind of code that gets rewritten word-wise. So, with
+// good probability whatever PExtreme is, the id is structured: one half zero (a 64-bit id padded to 128
+// bits), a single non-zero byte (the position cycles through the whole array), all 0xff, all zero; the
+// rest are unique pseudo-random ids.
+func (f *Filler) fillID(v reflect.Value, ext bool) {
+	n := v.Len()
+	u := f.uniq()
+	random := func(from, to int) {
+		for i := from; i < to; i++ {
+			v.Index(i).SetUint(uint64(byte(u>>(8*(uint(i)%8)))^byte(i*37+1)) | 1)
+		}
+	}
+	p := f.Rng.Float64()
+	if ext {
+		p /= 2 // more structure among the extreme values
+	}
+	switch {
+	case p < 0.08: // first half zero
+		random(n/2, n)
+	case p < 0.16: // second half zero
+		random(0, n/2)
+	case p < 0.30: // exactly one non-zero byte; position and value cycle with the counter
+		v.Index(int(u % int64(n))).SetUint(uint64(1 + (u/int64(n))%255))
+	case p < 0.34:
+		for i := 0; i < n; i++ {
+			v.Index(i).SetUint(0xff)
+		}
+	case p < 0.38 || ext && p < 0.45:
+		// the zero ("absent") id
+	default:
+		random(0, n)
+	}
 }
 
 func (f *Filler) length() int {
